@@ -42,6 +42,11 @@ package act
 //@   loop 1 invariant [scan] -1 <= rangeindex && rangeindex < len(s.spec) && ofoWF(s) && s.spec == old(s.spec) && s.restart == old(s.restart) && s.shutdown == old(s.shutdown) && s.autoshutdown == old(s.autoshutdown) && wait != nil
 //@   loop 1 invariant [found_spec] found ==> spec != nil && !(forall i int :: 0 <= i && i <= rangeindex ==> s.spec[i] != spec)
 //@   loop 1 invariant [others_untouched] forall i int :: 0 <= i && i < len(s.spec) && s.spec[i].Name != name && old(s.spec[i].pid) != pid ==> s.spec[i].pid == old(s.spec[i].pid)
+//@   loop 1 invariant [later_untouched] forall j int :: rangeindex < j && j < len(s.spec) ==> s.spec[j].pid == old(s.spec[j].pid)
+//@   loop 1 invariant [not_found_means_no_match_so_far] !found ==> (forall j int :: 0 <= j && j <= rangeindex ==> s.spec[j].Name != name && old(s.spec[j].pid) != pid)
+//@   loop 1 invariant [found_is_last_match] found ==> (exists i int :: 0 <= i && i <= rangeindex && s.spec[i] == spec && (s.spec[i].Name == name || old(s.spec[i].pid) == pid))
+//@   loop 1 invariant [running_are_awaited_so_far] forall j int :: 0 <= j && j <= rangeindex && s.spec[j].pid != gen.PID{} ==> wait[s.spec[j].pid]
+//@   loop 1 invariant [flags_untouched] forall i int :: 0 <= i && i < len(s.spec) ==> s.spec[i].disabled == old(s.spec[i].disabled) && s.spec[i].Significant == old(s.spec[i].Significant) && s.spec[i].Name == old(s.spec[i].Name)
 //@   loop 2 invariant [scan2] s.restart == old(s.restart) && spec != nil
 //@   at call supCheckRestartIntensity assert [configured_window] period == int(s.restart.Period) && intensity == int(s.restart.Intensity) && restarts == s.restarts
 //@   ensures [temporary_never_restarts] old(s.restart.Strategy) == SupervisorStrategyTemporary ==> result.do != supActionStartChild
@@ -49,6 +54,8 @@ package act
 //@   ensures [no_restart_while_shutting_down] old(s.shutdown) ==> result.do != supActionStartChild
 //@   ensures [disabled_child_stays_down] result.do == supActionStartChild ==> !result.spec.disabled
 //@   ensures [one_for_one_touches_only_that_child] forall i int :: 0 <= i && i < len(s.spec) && s.spec[i].Name != name && old(s.spec[i].pid) != pid ==> s.spec[i].pid == old(s.spec[i].pid)
+//@   ensures [disabled_child_exit_is_quiet] !old(s.shutdown) && (exists i int :: 0 <= i && i < len(s.spec) && (s.spec[i].Name == name || old(s.spec[i].pid) == pid)) && (forall i int :: 0 <= i && i < len(s.spec) && (s.spec[i].Name == name || old(s.spec[i].pid) == pid) ==> old(s.spec[i].disabled)) ==> result.do != supActionTerminateChildren && result.do != supActionStartChild && (result.do == supActionTerminate ==> s.autoshutdown)
+//@   ensures [new_shutdown_awaits_every_running_child] !old(s.shutdown) && s.shutdown ==> forall i int :: 0 <= i && i < len(s.spec) && s.spec[i].pid != gen.PID{} ==> has(s.wait, s.spec[i].pid)
 //@   ensures [shutdown_terminates_when_last_child_is_gone] old(s.shutdown) ==> (result.do == supActionTerminate <==> len(s.wait) == 0) && (result.do == supActionTerminate ==> result.reason == old(s.shutdownReason))
 //@   ensures [exceeded_reason_is_kept] result.do == supActionTerminateChildren && result.reason == ErrSupervisorRestartsExceeded ==> s.shutdown && s.shutdownReason == ErrSupervisorRestartsExceeded
 // C08 (all-for-one / rest-for-one). Representation invariant: distinct non-nil child specs, a mode in
@@ -67,7 +74,14 @@ package act
 //@   requires [history_wf] restartsWF(s.restarts) && 0 <= int(s.restart.Period) && 0 <= int(s.restart.Intensity)
 //@   requires [wf] arfoWF(s)
 //@   loop 1 invariant [scan] -1 <= rangeindex && rangeindex < len(s.spec) && arfoWF(s) && s.spec == old(s.spec) && s.restart == old(s.restart) && s.mode == old(s.mode) && s.keeporder == old(s.keeporder) && s.wait == old(s.wait) && (forall k gen.PID :: has(s.wait, k) == (old(has(s.wait, k)) && k != pid)) && wait != nil && wait != s.wait
+//@   loop 1 invariant [later_untouched] forall j int :: rangeindex < j && j < len(s.spec) ==> s.spec[j].pid == old(s.spec[j].pid)
+//@   loop 1 invariant [not_found_means_no_match_so_far] !found ==> (forall j int :: 0 <= j && j <= rangeindex ==> s.spec[j].Name != name && old(s.spec[j].pid) != pid)
+//@   loop 1 invariant [found_is_last_match] found ==> spec != nil && (exists i int :: 0 <= i && i <= rangeindex && s.spec[i] == spec && (s.spec[i].Name == name || old(s.spec[i].pid) == pid))
+//@   loop 1 invariant [running_are_awaited_so_far] forall j int :: 0 <= j && j <= rangeindex && s.spec[j].pid != gen.PID{} ==> wait[s.spec[j].pid]
+//@   loop 1 invariant [flags_untouched] forall i int :: 0 <= i && i < len(s.spec) ==> s.spec[i].disabled == old(s.spec[i].disabled) && s.spec[i].Significant == old(s.spec[i].Significant) && s.spec[i].Name == old(s.spec[i].Name)
 //@   at call supCheckRestartIntensity assert [configured_window] period == int(s.restart.Period) && intensity == int(s.restart.Intensity) && restarts == s.restarts
+//@   ensures [disabled_child_exit_is_quiet] old(s.mode) == 0 && (exists i int :: 0 <= i && i < len(s.spec) && (s.spec[i].Name == name || old(s.spec[i].pid) == pid)) && (forall i int :: 0 <= i && i < len(s.spec) && (s.spec[i].Name == name || old(s.spec[i].pid) == pid) ==> old(s.spec[i].disabled)) ==> result.do != supActionTerminateChildren && result.do != supActionStartChild && (result.do == supActionTerminate ==> s.autoshutdown)
+//@   ensures [new_shutdown_awaits_every_running_child] old(s.mode) != 3 && s.mode == 3 ==> forall i int :: 0 <= i && i < len(s.spec) && s.spec[i].pid != gen.PID{} ==> has(s.wait, s.spec[i].pid)
 //@   ensures [temporary_never_restarts] old(s.restart.Strategy) == SupervisorStrategyTemporary && old(s.mode) == 0 ==> result.do != supActionStartChild
 //@   ensures [transient_restarts_only_after_abnormal_end] old(s.restart.Strategy) == SupervisorStrategyTransient && old(s.mode) == 0 && (reason == gen.TerminateReasonNormal || reason == gen.TerminateReasonShutdown) ==> result.do != supActionStartChild
 //@   ensures [no_restart_while_shutting_down] old(s.mode) == 3 ==> result.do != supActionStartChild
